@@ -34,6 +34,9 @@ for _p, _extra in {
     "C08": "parse_json(to_json(h)) field by field for every class x binning type, re-serialisation, version gate (require_compatible_version is unbounded).",
     "C17": "h1 / h over lists, tuples, iterators, 2-D arrays, pandas and polars Series / DataFrames (values with NaN flags, weights as arrays or Series) against the "
            "histogram of the equivalent array; refusals of non-numeric, null-containing, wrongly shaped inputs; axis names from Series / column names.",
+    "C20": "get_data / get_err_data / check_ndim / get_value_format / pop_kwargs_with_prefix / TimeTickHandler (get_time_ticks, split_hms, parse_level), plot() refusals; "
+           "DRAW-LOG postconditions of matplotlib bar / scatter / line / fill / step / map and of plotly bar / line / scatter / map (arguments handed to the primitives), labels, error "
+           "bars, values, ticks, histogram untouched; ascii hbar is decided by the cross-check on the real code only.",
     "C15": "transform wiring of all seven classes (uninterpreted hypot/arctan2, 2*pi folding), mixin find_bin/fill/fill_n, projection class map.",
     "C16": "densities/bin_sizes/edges/centres/widths/cumulative of 1D and ND histograms, true bin measures and additivity for the seven special classes (cos uninterpreted).",
 }.items():
@@ -55,6 +58,9 @@ CHECKS["C07"] = {"category": "proof", "technique": "contract-based deductive ver
 CHECKS["C17"]["note"] = (_NOTE + "pandas / polars behaviour is an ASSUMED contract (pyvc/libstubs.py, written from the documentation); the cross-check feeds real pandas / polars "
     "objects to the real adapters on sampled inputs and is the conformance run of these stubs. NOT covered by this check: dask arrays (graph construction / scheduler), xarray and "
     "pandas conversions of histograms (to_xarray/from_xarray, to_dataframe/to_series, IntervalIndex), the .physt accessors and the Geant4 CSV parser -- no contract on them is claimed.")
+CHECKS["C20"]["note"] = (_NOTE + "ASSUMED: matplotlib / plotly primitives draw what their arguments say (pyvc/plotstubs.py records the arguments handed to them); "
+    "Normalize(clip=True) + colormap is monotone. What the back ends actually render is not verified. Not covered: image, polar_map, bar3d, globe/cylinder/surface maps, pair_bars, "
+    "stats box, colorbar, format_time_ticks, folium, vega (disabled at this commit).")
 CHECKS["C04"] = {"category": "proof", "technique": "contract-based deductive verification: VCs from the real AST, z3 (nonlinear mixed int/real arithmetic)",
    "text": "FixedWidthBinning._force_bin_existence_single is verified for an unbounded (symbolic) bin count, width, origin, shift and value: value covered, grid and old "
            "bins kept, minimal growth, returned shift, caches invalidated -- every path, all inputs (reals). The adaptive arms of fill are additionally checked bounded "
